@@ -17,8 +17,8 @@ theorem parse_encode (a : Adv) (hwf : WF a) :
     cases ad <;> simp [parseServiceData, servicePayload, e1, e2, e3]
   refine ⟨hs, ?_⟩
   have hm : matterServiceData ((encode ⟨vid, pid, disc, ad⟩).length + 1) (encode ⟨vid, pid, disc, ad⟩)
-      = some (servicePayload ⟨vid, pid, disc, ad⟩) := by
-    simp [encode, servicePayload, matterServiceData, AD_TYPE_SERVICE_DATA_UUID16, MATTER_UUID16_LO, MATTER_UUID16_HI]
+      = .ok (some (servicePayload ⟨vid, pid, disc, ad⟩)) := by
+    simp [encode, servicePayload, matterServiceData, splitAt, AD_TYPE_SERVICE_DATA_UUID16, MATTER_UUID16_LO, MATTER_UUID16_HI]
   simp only [parseAdv, hm, hs]
 
 /-- **BLE advertisement: the parsers are total and never panic** -/
@@ -36,11 +36,57 @@ theorem parseServiceData_np (p : List Nat) : NoPanic (parseServiceData p) := by
       | [_, _, _, _, _, _], hl, _ | [_, _, _, _, _, _, _], hl, _ => simp at hl
       | a :: b :: c :: d :: e :: f :: g :: h :: r, _, hne => exact hne a b c d e f g h r rfl
 
+/-- **the `AdStructures` walk terminates and its `split_at` is in range**: with more fuel than bytes the
+model never answers `WalkErr.fuel` (each step consumes the length octet and at least one more byte) nor
+`WalkErr.panic` (the split is guarded by `len > rest.len()`) -/
+theorem matterServiceData_ok_aux : ∀ (fuel : Nat) (adv : List Nat), adv.length < fuel →
+    ∃ r, matterServiceData fuel adv = .ok r := by
+  intro fuel
+  induction fuel with
+  | zero => intro adv h; omega
+  | succ fuel ih =>
+    intro adv h
+    unfold matterServiceData
+    match adv, h with
+    | [], _ => exact ⟨_, rfl⟩
+    | len :: rest, h =>
+      simp only
+      by_cases hc : len = 0 ∨ len > rest.length
+      · rw [if_pos hc]; exact ⟨_, rfl⟩
+      · rw [if_neg hc]
+        have hle : len ≤ rest.length := by omega
+        have hrec : (rest.drop len).length < fuel := by
+          simp only [List.length_drop, List.length_cons] at h ⊢; omega
+        simp only [splitAt, if_pos hle]
+        split
+        · exact ⟨_, rfl⟩
+        · split
+          · exact ih _ hrec
+          · split
+            · split
+              · exact ⟨_, rfl⟩
+              · exact ih _ hrec
+            · exact ih _ hrec
+
+theorem matterServiceData_ok (adv : List Nat) : ∃ r, matterServiceData (adv.length + 1) adv = .ok r :=
+  matterServiceData_ok_aux _ adv (Nat.lt_succ_self _)
+
+theorem matterServiceData_no_fuel (adv : List Nat) :
+    matterServiceData (adv.length + 1) adv ≠ .error .fuel ∧ matterServiceData (adv.length + 1) adv ≠ .error .panic := by
+  obtain ⟨r, h⟩ := matterServiceData_ok adv
+  rw [h]; exact ⟨by simp, by simp⟩
+
+/-- the fuel error is a real answer of the model when the fuel is too small (so the theorem above is not
+vacuous): two structures need two steps -/
+example : matterServiceData 1 [2, 1, 6, 2, 1, 6] = .error .fuel := rfl
+
 theorem parseAdv_np (adv : List Nat) : NoPanic (parseAdv adv) := by
   unfold parseAdv
-  split
-  · exact NoPanic.ok _
-  · exact parseServiceData_np _
+  obtain ⟨r, h⟩ := matterServiceData_ok adv
+  rw [h]
+  cases r with
+  | none => exact NoPanic.ok _
+  | some d => exact parseServiceData_np _
 
 example : WF { vid := 0xFFF1, pid := 0x8000, disc := 0xF00, additional := false } := by
   refine ⟨by decide, by decide, by decide⟩
